@@ -216,6 +216,153 @@ Section Proofs.
     rewrite (hamsum_ext _ (fun j => h1 j) _ (fun j => h2 j)) by (intros j; rewrite Nat.add_0_r; reflexivity).
     reflexivity.
   Qed.
+
+  (* ------------------------------------------------------------ periodic *)
+  Notation mid_apply := (mid_apply R r0 radd rmul e one two var1 var2).
+  Notation columns := (columns R).
+  Notation zipcons := (zipcons R).
+  Notation matvec := (matvec R r0 radd rmul).
+
+  Lemma dot_unit_last u p x : dot (u ++ [p]) (repeat r0 (length u) ++ [x]) = p * x.
+  Proof.
+    unfold dot. induction u as [|a u IH]; cbn [app length repeat SpinHam.zipmul SpinHam.rsum fold_right].
+    - apply add_0_r.
+    - fold (rsum (zipmul (u ++ [p]) (repeat r0 (length u) ++ [x]))). rewrite IH, mul_0_r. apply add_0_l.
+  Qed.
+
+  Lemma dot_head_unit_last a m x : dot (a :: repeat r0 (S m)) (repeat r0 (S m) ++ [x]) = r0.
+  Proof.
+    change (a :: repeat r0 (S m)) with (a :: r0 :: repeat r0 m). rewrite (repeat_cons m r0).
+    rewrite app_comm_cons.
+    replace (S m) with (length (a :: repeat r0 m)) by (cbn [length]; rewrite repeat_length; reflexivity).
+    rewrite dot_unit_last. apply mul_0_l.
+  Qed.
+
+  Lemma last_row_unit_last i x : dot (last_row i) (repeat r0 (S (length (bondT i))) ++ [x]) = e * x.
+  Proof.
+    unfold last_row.
+    replace (S (length (bondT i))) with (length (h1 i :: map open_slot (bondT i)))
+      by (cbn [length]; rewrite map_length; reflexivity).
+    apply dot_unit_last.
+  Qed.
+
+  Lemma matvec_unit_last i x :
+    matvec (siteT i) (repeat r0 (S (length (bondT i))) ++ [x]) = repeat r0 (S (length (leftT i))) ++ [e * x].
+  Proof.
+    rewrite siteT_rows. unfold SpinHam.matvec. cbn [map]. rewrite map_app. cbn [map].
+    rewrite last_row_unit_last, dot_head_unit_last, map_map.
+    rewrite (map_ext _ (fun _ => r0)) by (intros t; apply dot_head_unit_last).
+    cbn [repeat app]. f_equal. f_equal.
+    induction (leftT i) as [|t l IH]; cbn [map length repeat]; [reflexivity | f_equal; exact IH].
+  Qed.
+
+  Lemma mid_apply_unit_last n : forall i x,
+    mid_apply n i (repeat r0 (S (length (leftT (n + i)))) ++ [x]) = repeat r0 (S (length (leftT i))) ++ [pw n * x].
+  Proof.
+    induction n as [|n IH]; intros i x.
+    - cbn [SpinHam.mid_apply Nat.add SpinHam.pw]. rewrite mul_1_l. reflexivity.
+    - cbn [SpinHam.mid_apply]. replace (S n + i)%nat with (n + S i)%nat by lia. rewrite IH.
+      change (leftT (S i)) with (bondT i). rewrite matvec_unit_last. cbn [SpinHam.pw].
+      rewrite mul_assoc. reflexivity.
+  Qed.
+
+  Lemma col_from_mid_apply n : forall i,
+    col_from n i = mid_apply n i (tensor_R R r0 (siteT (n + i))).
+  Proof.
+    induction n as [|n IH]; intros i.
+    - reflexivity.
+    - cbn [SpinHam.col_from SpinHam.mid_apply]. rewrite IH. replace (n + S i)%nat with (S n + i)%nat by lia. reflexivity.
+  Qed.
+
+  (* the columns of a site tensor *)
+  Lemma zipcons_zeros {A : Type} (f : A -> list R) (l : list A) k : k = length l ->
+    zipcons (repeat r0 k) (map f l) = map (fun t => r0 :: f t) l.
+  Proof.
+    intros ->. induction l as [|t l IH]; cbn [length repeat map SpinHam.zipcons]; [reflexivity | f_equal; exact IH].
+  Qed.
+
+  Lemma columns_cons row W : W <> [] -> columns (row :: W) = zipcons row (columns W).
+  Proof. destruct W; [congruence | reflexivity]. Qed.
+
+  Lemma columns_mids (mids : list (R * R * R)) (lastr : list R) k x0 : k = length lastr ->
+    columns (map (fun t => close_slot t :: repeat r0 k) mids ++ [x0 :: lastr])
+    = (map close_slot mids ++ [x0]) :: map (fun x => repeat r0 (length mids) ++ [x]) lastr.
+  Proof.
+    intros ->. induction mids as [|t mids IH].
+    - cbn [map app SpinHam.columns length repeat]. reflexivity.
+    - cbn [map app]. rewrite columns_cons by (destruct mids; discriminate).
+      rewrite IH. cbn [SpinHam.zipcons length]. f_equal.
+      rewrite zipcons_zeros by reflexivity. reflexivity.
+  Qed.
+
+  Lemma columns_site i :
+    columns (siteT i)
+    = tensor_R R r0 (siteT i)
+      :: map (fun x => repeat r0 (S (length (leftT i))) ++ [x]) (map open_slot (bondT i) ++ [e]).
+  Proof.
+    rewrite tensor_R_site, siteT_rows. unfold last_row. cbn [app].
+    rewrite columns_cons by (destruct (leftT i); discriminate).
+    rewrite (columns_mids (leftT i) (map open_slot (bondT i) ++ [e]))
+      by (rewrite app_length, map_length; cbn [length]; lia).
+    cbn [SpinHam.zipcons]. f_equal.
+    replace (S (length (bondT i))) with (length (map open_slot (bondT i) ++ [e]))
+      by (rewrite app_length, map_length; cbn [length]; lia).
+    rewrite zipcons_zeros by reflexivity. reflexivity.
+  Qed.
+
+  Lemma tensor_L_cyclic_site i :
+    tensor_L_cyclic R r0 (siteT i)
+    = last_row i
+      :: map (fun t => repeat r0 (S (length (bondT i))) ++ [close_slot t]) (leftT i)
+      ++ [repeat r0 (S (S (length (bondT i))))].
+  Proof.
+    rewrite <- tensor_L_site. rewrite siteT_rows at 1. unfold tensor_L_cyclic.
+    rewrite <- siteT_rows. f_equal. rewrite removelast_last, map_map.
+    cbn [length hd Nat.sub]. rewrite repeat_length. f_equal.
+    destruct (map _ (leftT i)); reflexivity.
+  Qed.
+
+  Lemma combine_map_snoc {A B T : Type} (f : T -> A) (g : T -> B) (l : list T) a b :
+    combine (map f l ++ [a]) (map g l ++ [b]) = map (fun t => (f t, g t)) l ++ [(a, b)].
+  Proof. induction l as [|t l IH]; cbn [map app combine]; [reflexivity | f_equal; exact IH]. Qed.
+
+  Lemma rsum_cons x l : rsum (x :: l) = x + rsum l.
+  Proof. reflexivity. Qed.
+
+  Lemma rsum_snoc l x : rsum (l ++ [x]) = rsum l + x.
+  Proof.
+    induction l as [|y l IH]; cbn [app SpinHam.rsum fold_right].
+    - rewrite add_0_r, add_0_l. reflexivity.
+    - fold (rsum (l ++ [x])). fold (rsum l). rewrite IH. apply add_assoc.
+  Qed.
+
+  Theorem mpo_cyclic_denotes_hamiltonian L : 2 <= L -> bondT (L - 1) = two ->
+    mpo_value_cyclic R r0 radd rmul e one two var1 var2 L
+    = Some (ham_ref_cyclic R r0 r1 radd rmul e one two var1 var2 L).
+  Proof.
+    destruct L as [|[|n]]; try lia. intros _ Hclose. cbn [Nat.sub] in Hclose.
+    unfold mpo_value_cyclic, ham_ref_cyclic. f_equal.
+    rewrite tensor_L_cyclic_site, columns_site. change (leftT 0) with two. rewrite Hclose.
+    rewrite map_app, (map_map open_slot). cbn [map combine].
+    rewrite combine_map_snoc, rsum_cons. cbn [fst snd].
+    rewrite map_app. cbn [map]. rewrite rsum_snoc, map_map. cbn [fst snd].
+    (* the b = 0 term: the open chain *)
+    replace (siteT (S n)) with (siteT (n + 1)%nat) by (f_equal; lia).
+    rewrite <- col_from_mid_apply, <- tensor_L_site.
+    pose proof (mpo_denotes_hamiltonian (S (S n)) ltac:(lia)) as Hopen.
+    unfold mpo_value in Hopen. injection Hopen as Hopen. rewrite Hopen.
+    f_equal.
+    (* the last row of HLc is zero *)
+    unfold SpinHam.dot at 2. rewrite dot_zeros, add_0_r.
+    (* the rows 1 + t: B_t on site 0, e on the sites between, f_t A_t on site L-1 *)
+    apply rsum_ext. intros t.
+    replace (leftT (S n)) with (leftT (n + 1)%nat) by (f_equal; lia).
+    rewrite mid_apply_unit_last.
+    change (leftT 1) with (bondT 0).
+    replace (S (length (bondT 0))) with (length (repeat r0 (S (length (bondT 0))))) at 2
+      by (rewrite repeat_length; reflexivity).
+    rewrite dot_unit_last. cbn [Nat.sub]. rewrite Nat.sub_0_r. reflexivity.
+  Qed.
 End Proofs.
 
 (* ------------------------------------------------------------------------ *)
